@@ -1,0 +1,84 @@
+//go:build verif
+
+package vss
+
+// Verification hooks (build tag `verif` only; nothing here is compiled into normal builds).
+// They let an external harness play a malicious dealer through the REAL encryption path and read
+// the aggregation state that decides DealCertified.
+
+import (
+	"errors"
+
+	"go.dedis.ch/kyber/v4"
+	"go.dedis.ch/kyber/v4/sign/schnorr"
+)
+
+// EncryptDealFor encrypts an arbitrary deal for verifier i under the dealer's keys by running
+// the unmodified EncryptedDeal code with the i-th stored deal temporarily replaced.
+func (d *Dealer) EncryptDealFor(i int, deal *Deal) (*EncryptedDeal, error) {
+	if i < 0 || i >= len(d.deals) {
+		return nil, errors.New("verif: EncryptDealFor index out of range")
+	}
+	old := d.deals[i]
+	d.deals[i] = deal
+	defer func() { d.deals[i] = old }()
+	return d.EncryptedDeal(i)
+}
+
+// EncryptRawFor seals arbitrary plaintext bytes (e.g. a malformed marshalled deal) for verifier i
+// exactly as EncryptedDeal seals a marshalled deal: fresh ephemeral key signed with the dealer's
+// long-term key, dhExchange, newAEAD, zero nonce, hkdfContext as additional data.
+func (d *Dealer) EncryptRawFor(i int, plaintext []byte) (*EncryptedDeal, error) {
+	vPub, ok := findPub(d.verifiers, uint32(i))
+	if !ok {
+		return nil, errors.New("verif: EncryptRawFor index out of range")
+	}
+	dhSecret := d.suite.Scalar().Pick(d.suite.RandomStream())
+	dhPublic := d.suite.Point().Mul(dhSecret, nil)
+	dhPublicBuff, _ := dhPublic.MarshalBinary()
+	signature, err := schnorr.Sign(d.suite, d.long, dhPublicBuff)
+	if err != nil {
+		return nil, err
+	}
+	pre := dhExchange(d.suite, dhSecret, vPub)
+	gcm, err := newAEAD(d.suite.Hash, pre, d.hkdfContext)
+	if err != nil {
+		return nil, err
+	}
+	nonce := make([]byte, gcm.NonceSize())
+	return &EncryptedDeal{
+		DHKey:     dhPublicBuff,
+		Signature: signature,
+		Cipher:    gcm.Seal(nil, nonce, plaintext, d.hkdfContext),
+	}, nil
+}
+
+// VerifAggState is a read-only snapshot of an Aggregator.
+type VerifAggState struct {
+	Present   bool            // aggregator pointer non-nil
+	Responses map[uint32]bool // index -> StatusApproved
+	BadDealer bool
+	Timeout   bool
+	T         uint32
+	SID       []byte
+	HasDeal   bool
+}
+
+// VerifState returns a snapshot of the aggregation state.
+func (a *Aggregator) VerifState() VerifAggState {
+	if a == nil {
+		return VerifAggState{}
+	}
+	rs := make(map[uint32]bool, len(a.responses))
+	for i, r := range a.responses {
+		rs[i] = r.StatusApproved
+	}
+	return VerifAggState{Present: true, Responses: rs, BadDealer: a.badDealer, Timeout: a.timeout,
+		T: a.t, SID: a.sid, HasDeal: a.deal != nil}
+}
+
+// VerifSessionID exposes the package's sessionID function (hash of dealer key, verifier keys,
+// commitments and threshold).
+func VerifSessionID(suite Suite, dealer kyber.Point, verifiers, commitments []kyber.Point, t uint32) ([]byte, error) {
+	return sessionID(suite, dealer, verifiers, commitments, t)
+}
